@@ -23,15 +23,15 @@ cvars == <<vars, pid, pos>>
 CInit == /\ pid \in 1..Len(Scripts)
          /\ pos = 1
          /\ now = 0 /\ ready = <<>> /\ batch = 0 /\ net = {}
-         /\ s = InitS([c \in Callers |-> 0])
+         /\ s = InitS([c \in Callers |-> Scripts[pid].off[c]])
          /\ mon = Mon!InitM(NCallers * NReq)
          /\ viol = {}
 
 Drop == [k |-> "drop", d |-> 0, d2 |-> 0, x |-> 0]
-\* the fault of the next transmission of caller 1's current request
-PickFault(sc, st) ==
-    LET r == st.idx[1] k == st.rtx[1] + 1 IN
-    IF r >= 1 /\ r <= Len(sc.rf) /\ k <= Len(sc.rf[r]) THEN sc.rf[r][k] ELSE Drop
+\* the fault of the next transmission of caller c's current request (requests are numbered caller-major)
+PickFault(sc, st, c) ==
+    LET r == Req(c, st.idx[c]) k == st.rtx[c] + 1 IN
+    IF st.idx[c] >= 1 /\ r <= Len(sc.rf) /\ k <= Len(sc.rf[r]) THEN sc.rf[r][k] ELSE Drop
 \* after idx was advanced inside the same step (request start): look at the request that is about to transmit
 PickConn(sc, st) == IF st.cfails + st.trn - 1 < Len(sc.conn) THEN sc.conn[st.cfails + st.trn] ELSE "ok"
 
@@ -54,9 +54,10 @@ CRunOne ==
     /\ batch > 0
     /\ LET sc == Scripts[pid]
            cb == Head(ready)
-           starts == cb.k = "wake" /\ s.pc[cb.c] = "idle"
-           stf == IF starts THEN [s EXCEPT !.idx[1] = @ + 1, !.rtx[1] = 0] ELSE s
-           f == PickFault(sc, stf)
+           c == IF cb.k = "wake" THEN cb.c ELSE 1
+           starts == cb.k = "wake" /\ s.pc[c] = "idle"
+           stf == IF starts THEN [s EXCEPT !.idx[c] = @ + 1, !.rtx[c] = 0] ELSE s
+           f == PickFault(sc, stf, c)
            o == PickConn(sc, s)
            X == Callback(X0(s), cb, f, o, sc.gap)
        IN /\ Matches(X.ev, sc.ev, pos)
